@@ -148,8 +148,16 @@ def run(tier, seed):
     # acceptable by being presented under / wrapped into such a name (the statement itself, a list of {fmt, attStmt} maps as in L3's "compound", a map of them)
     from harness import srcdict
     import cbor2 as _cb
-    for w in [x for x in srcdict.words() if x.isascii() and x[:1].isalpha()][:10]:
+    # ... nor under another SPELLING of a registered format name (underscores for hyphens, the enum member's name, other case, a module name): roots are configured per
+    # format identifier, and only the identifier itself selects a verification procedure
+    respelled = []
+    for f_ in ("packed", "tpm", "fido-u2f", "android-key", "android-safetynet", "apple", "none"):
+        respelled += [f_.replace("-", "_"), f_.upper(), f_.replace("-", "_").upper(), f_.replace("-", ""), f_.title(), f_ + " ", " " + f_, f_.replace("-", "\u2010"), f_.replace("-", "."), "webauthn.registration.formats." + f_.replace("-", "_")]
+    respelled = [x for x in dict.fromkeys(respelled) if x not in ("packed", "tpm", "fido-u2f", "android-key", "android-safetynet", "apple", "none")]
+    for w in [x for x in srcdict.words() if x.isascii() and x[:1].isalpha()][:10] + respelled:
         for fmt in ("packed", "tpm", "fido-u2f"):
+            if w in respelled and w.strip().lower().replace("_", "-").replace(".", "-").replace("\u2010", "-").split("formats-")[-1].replace("-", "") != fmt.replace("-", ""):
+                continue
             for mode in ("unrelated", "impostor"):
                 s = regsim.RScn(fmt, "ES256-P256")
                 s.roots_mode = mode
